@@ -25,7 +25,7 @@ RULE = (
 )
 ASSUMPTIONS = ["acceptance of words longer than L (8 quick / 11 thorough) is covered only through automaton-vs-automaton equivalence",
                "reads only states/transitions/initial_state/final_states of automata-lib DFA objects"]
-REQUIRED = ["planted.words_decided", "calls.PinWords.make_dfa_for_perm", "calls.PinWords.make_dfa_for_basis_from_pinwords", "calls.PinWords.make_dfa_for_basis_from_db",
+REQUIRED = ["env.shards_with_other_hashseed", "planted.words_decided", "calls.PinWords.make_dfa_for_perm", "calls.PinWords.make_dfa_for_basis_from_pinwords", "calls.PinWords.make_dfa_for_basis_from_db",
             "calls.PinWords.has_finite_pinperms", "words.decided", "words.accepted", "words.rejected", "equivalence.checked", "finite.true", "finite.false",
             "counts.lengths_checked", "nonpin.bases"]
 MIN_NONTRIVIAL = 500
@@ -231,6 +231,7 @@ def plan(tier, seed):
               [[2, 0, 3, 1], [0, 1, 2], [1, 0, 3, 2]], [[2, 0, 1], [1, 2, 3, 0], [2, 1, 0]], [[0, 1, 2, 3], [1, 0], [3, 2, 1, 0], [0, 1]]]
     parts = 16
     specs = [{"name": f"bases-{i}", "kind": "bases", "bases": bases[i::parts], "rand": max(0, nrand // parts + (i < nrand % parts))} for i in range(parts)]
+    specs += [dict(specs[j], name=f"bases-hashseed-{j}", env={"PYTHONHASHSEED": str(977 + 31 * j + seed)}) for j in (0, 5)]
     specs.append({"name": "nonpin", "kind": "nonpin", "count": 2 if tier == "quick" else 3})
     specs.append({"name": "planted", "kind": "planted", "count": 6 if tier == "quick" else 40})
     return specs
